@@ -144,6 +144,53 @@ def check_small(ck, c):
         pass
 
 
+def ref_center(start, radius, rotation, large_arc, sweep, end):
+    """SVG 1.1 F.6.5 (end point -> centre), written out independently; returns (centre, rx, ry)"""
+    phi = math.radians(rotation)
+    rx, ry = abs(radius.real), abs(radius.imag)
+    dx, dy = (start.real - end.real) / 2.0, (start.imag - end.imag) / 2.0
+    x1 = math.cos(phi) * dx + math.sin(phi) * dy
+    y1 = -math.sin(phi) * dx + math.cos(phi) * dy
+    lam = x1 * x1 / (rx * rx) + y1 * y1 / (ry * ry)
+    if lam > 1:
+        rx, ry = rx * math.sqrt(lam), ry * math.sqrt(lam)
+    den = rx * rx * y1 * y1 + ry * ry * x1 * x1
+    co = math.sqrt(max(0.0, (rx * rx * ry * ry - den) / den)) * (-1 if large_arc == sweep else 1)
+    cxp, cyp = co * rx * y1 / ry, -co * ry * x1 / rx
+    return complex(math.cos(phi) * cxp - math.sin(phi) * cyp + (start.real + end.real) / 2.0,
+                   math.sin(phi) * cxp + math.cos(phi) * cyp + (start.imag + end.imag) / 2.0), rx, ry
+
+
+def construction_sequences(ck):
+    """Arcs are built one after the other in one process; inputs that differ only where CPython's hash cannot tell them apart
+    (hash(-1) == hash(-2), also for floats and complex numbers) must still be parameterised each from its own inputs."""
+    base = dict(start=3 + 1j, radius=9 + 5j, rotation=20.0, large_arc=False, sweep=True, end=-4 + 6j)
+    variants = [('rotation', -1.0, -2.0), ('rotation', -1, -2), ('start', -1 + 0j, -2 + 0j), ('start', 2 - 1j, 2 - 2j), ('end', -1 + 6j, -2 + 6j),
+                ('end', -4 - 1j, -4 - 2j), ('radius', 9 - 1j, 9 - 2j), ('radius', -1 + 50j, -2 + 50j)]
+    for field, v1, v2 in variants:
+        for order in ((v1, v2, v1), (v2, v1)):
+            for la, sw in ((False, True), (True, False)):
+                for v in order:
+                    kw = dict(base, large_arc=la, sweep=sw)
+                    kw[field] = v
+                    ck.case(fp=('seq', field, str(order), la, sw, str(v)), nontrivial=True)
+                    args = (kw['start'], kw['radius'], kw['rotation'], kw['large_arc'], kw['sweep'], kw['end'])
+                    cen, rx, ry = ref_center(*args)
+                    try:
+                        arc = sp.Arc(*args)
+                        obs = (arc.center, arc.radius, arc.point(0), arc.point(1), am.on_ellipse_residual(arc, arc.point(0.37)))
+                    except Exception as e:      # noqa
+                        obs = e
+                    size = 60.0
+                    if isinstance(obs, Exception) or not (abs(obs[0] - cen) <= 1e-7 * size) or not (abs(obs[1] - complex(rx, ry)) <= 1e-9 * size) \
+                            or not (abs(obs[2] - kw['start']) <= 1e-7 * size) or not (abs(obs[3] - kw['end']) <= 1e-7 * size) or not (abs(obs[4]) <= 1e-7):
+                        ck.disagree(key='Arc/parameterisation-depends-on-earlier-arcs', site='svgpathtools/path.py:Arc._parameterize',
+                                    what='Arc%r built after arcs differing only in %s (%r / %r): centre, radius, point(0), point(1), residual = %r; F.6.5 gives centre %r radii (%r, %r)'
+                                         % (args, field, v1, v2, obs, cen, rx, ry), case={'field': field, 'order': [str(x) for x in order], 'args': [str(x) for x in args]},
+                                    expected=[str(cen), rx, ry], observed=repr(obs), driver='sequence')
+                        return
+
+
 def run(ck):
     rnd = random.Random(ck.seed)
     quick = ck.tier == 'quick'
@@ -171,6 +218,7 @@ def run(ck):
     ck.tlc('ArcLattice', d % (('RadiiA', 'PhisA', 'DlsSome', 'CentersB') if quick else ('RadiiB', 'PhisA', 'DlsAll', 'CentersA')),
            workers=1, coverage=False, on_case=on_case, timeout=6000)
     ck.count('arcs', st['n'])
+    construction_sequences(ck)
 
 
 def replay(rec):
